@@ -129,6 +129,36 @@ def arg_or_kw(call: ast.Call, pos: int, name: str) -> ast.expr | None:
     return None
 
 
+def positional_view(model, fn, call: ast.Call) -> list:
+    """The arguments of ``call`` in the order of the callee's positional parameters, whether they were passed by position or by keyword (callee resolved in the
+    source model; unresolved callees and starred arguments give the positional arguments as written)."""
+    args = list(call.args)
+    if any(isinstance(a, ast.Starred) for a in args) or any(k.arg is None for k in call.keywords):
+        return args
+    try:
+        kind, tg = model.resolve_call(fn, call)
+    except Exception:
+        return args
+    callee = None
+    if kind == "repo" and tg:
+        callee = tg[0]
+    elif kind == "class" and tg:
+        callee = tg[0].find_method("__init__")
+    if callee is None:
+        return args
+    a = callee.node.args
+    ps = [x.arg for x in list(a.posonlyargs) + list(a.args)]
+    if callee.cls is not None and callee.parent is None and not callee.is_staticmethod and ps:
+        ps = ps[1:]
+    kw = {k.arg: k.value for k in call.keywords}
+    out = list(args)
+    i = len(out)
+    while i < len(ps) and ps[i] in kw:
+        out.append(kw[ps[i]])
+        i += 1
+    return out
+
+
 def rotation_centre_obligations(model, rep, fn, clause, rule="A"):
     """Every ``compose_matrices(centre, rotators)`` call in ``fn`` whose centre is computed from an array shape rotates about the
     array's centre (n - 1) / 2 on every axis (affine normal form; independent of how the expression is spelled)."""
